@@ -12,7 +12,9 @@ import os
 import re
 from checklib import sh, parse_kv_line, REPO, HARNESS
 
-VARIANTS = ["as-is", "drain-skips-ignored", "lossy-fixed", "drain-skips-ignored+lossy-fixed"]
+FLAGS = ["drain-skips-ignored", "lossy-fixed", "cache-multirow-fixed"]
+VARIANTS = ["+".join(f for b, f in enumerate(FLAGS) if i >> b & 1) or "as-is" for i in range(8)]
+NV = len(VARIANTS)
 
 
 def run(ctx):
@@ -79,7 +81,7 @@ def run(ctx):
     fn_spec_differs = 0
     distinct = set()
     samples = []
-    var_ok = [True] * 4
+    var_ok = [True] * NV
     first_diff = None
     corr_cases = 0
     corr_bad_asis = 0
@@ -92,12 +94,12 @@ def run(ctx):
         if "corr" not in kv:
             continue
         corr_cases += 1
-        vs = kv.get("vars", "0000")
-        for i in range(4):
+        vs = kv.get("vars", "0" * NV)
+        for i in range(NV):
             var_ok[i] = var_ok[i] and vs[i:i + 1] == "1"
         if kv["corr"] != "ok":
             corr_bad_asis += 1
-            if first_diff is None or (vs == "0000" and first_diff[2] != "0000"):
+            if first_diff is None or (vs == "0" * NV and first_diff[2] != "0" * NV):
                 first_diff = (cid, kv, vs)
         if "kind" in kv:
             fn_evals[kv["kind"]] = fn_evals.get(kv["kind"], 0) + 1
@@ -129,7 +131,7 @@ def run(ctx):
                           "replacement characters on ill-formed UTF-8): " + kv.get("lossymsg", ""),
                           {"case": cid, "spec": specs.get(cid, ""), "result": kv},
                           fingerprint={"queryset": qid, "clause": "utf16-lossy"})
-    matching = [VARIANTS[i] for i in range(4) if var_ok[i]]
+    matching = [VARIANTS[i] for i in range(NV) if var_ok[i]]
     if corr_cases and not matching:
         cid, kv, vs = first_diff
         ctx.violation("corr", "model (TsVerif.C18.runTags / utf16Len / lineRange) and implementation disagree: %s %s (no code variant matches all cases)" % (cid, kv["corr"]),
